@@ -26,10 +26,106 @@ def gen_cases(tier, seed):
         s = env.seed_for(seed, ID, tier, i)
         r = random.Random(env.seed_for(s, "descriptor"))  # independent of the stream run_case derives from the same seed
         out.append({"seed": s, "n": r.randint(2, 22 if tier == "quick" else 55), "steps": r.randint(3, 14 if tier == "quick" else 25)})
+    for i in range(n // 10):
+        out.append({"seed": env.seed_for(seed, ID, tier, "file", i), "mode": "file"})
     return out
 
 
+def run_file(desc):
+    """Histories over the bundled FILE stores with execution counters in the plan's functions: build, repeat (silent), update the source
+    (sometimes so that a downstream value is rebuilt to byte-identical content), touch, delete; after every run exactly the values the
+    real file times make out of date are recomputed, once, and an immediately repeated run computes and rewrites nothing."""
+    import os
+    import shutil
+    import tempfile
+
+    import uberjob
+    from vmon.checks import c08_file as F
+
+    rng = random.Random(desc["seed"])
+    shape = rng.choice([0, 1, 2])
+    c_json = rng.random() < 0.5
+    d = tempfile.mkdtemp(prefix="vmon-c05f-")
+    counters = {"file_histories": 1, "file_runs_checked": 0, "file_silent_reruns": 0, "file_identical_rebuilds": 0}
+    bad = None
+    log = []
+    try:
+        plan, reg, stores, nodes, deps = F.build(d, shape, c_json)
+        names = list(nodes)
+        pad = "x" * rng.randint(0, 20)
+        aval = {"v": rng.randint(10, 99), "pad": pad}
+        stores["a"].write(aval)
+        F.wait_fs_tick(d)
+        for step in range(rng.randint(3, 8)):
+            op = "run" if step == 0 else rng.choice(["run", "update_same_len", "update", "touch_source", "delete", "run"])
+            if op == "update_same_len":
+                aval = {"v": rng.choice([v for v in range(10, 100) if v != aval["v"]]), "pad": pad}
+                stores["a"].write(aval)
+            elif op == "update":
+                aval = {"v": rng.randint(100, 9999), "pad": pad}
+                stores["a"].write(aval)
+            elif op == "touch_source":
+                stores["a"].write(aval)  # rewritten with the very same content: newer, everything downstream is out of date
+            elif op == "delete":
+                victim = rng.choice(names[1:])
+                try:
+                    os.remove(stores[victim].path)
+                except OSError:
+                    pass
+            log.append(op)
+            F.wait_fs_tick(d)
+            st0 = F.state(stores, names)
+            o = F.ood(st0, deps, names)
+            want_before = F.scratch_values(aval, names)  # (calls the plain functions itself: taken before the counter snapshot)
+            prev_c = None
+            try:
+                prev_c = stores["c"].read()
+            except BaseException:
+                pass
+            calls0 = dict(F.CALLS)
+            try:
+                uberjob.run(plan, registry=reg, progress=None, max_workers=rng.choice([1, 2, 4]))
+            except BaseException as e:
+                bad = f"step {step} ({op}): run raised {e!r} (cause {e.__cause__!r})"
+                break
+            counters["file_runs_checked"] += 1
+            did = {k: F.CALLS[k] - calls0.get(k, 0) for k in names[1:]}
+            want_calls = {k: (1 if o[k] else 0) for k in names[1:]}
+            if did != want_calls:
+                bad = (f"step {step} ({op}; history {log}): recomputed {did}, but the file times before the run make exactly {sorted(k for k in names[1:] if o[k])} "
+                       f"out of date (each once)")
+                break
+            st1 = F.state(stores, names)
+            for k in names[1:]:
+                if o[k] and st1[k] == st0[k]:
+                    bad = f"step {step} ({op}; history {log}): {k} was out of date and recomputed but its file was not rewritten (same mtime/inode): it will look out of date for ever"
+                    break
+                if not o[k] and st1[k] != st0[k]:
+                    bad = f"step {step} ({op}): up-to-date {k} was rewritten"
+                    break
+            if bad:
+                break
+            if o.get("c") and prev_c is not None and prev_c == want_before["c"]:
+                counters["file_identical_rebuilds"] += 1
+            F.wait_fs_tick(d)
+            calls1 = dict(F.CALLS)
+            uberjob.run(plan, registry=reg, progress=None, max_workers=2)
+            counters["file_silent_reruns"] += 1
+            if dict(F.CALLS) != calls1 or F.state(stores, names) != st1:
+                again = {k: F.CALLS[k] - calls1.get(k, 0) for k in names[1:] if F.CALLS[k] != calls1.get(k, 0)}
+                bad = f"step {step} ({op}; history {log}): the immediately repeated run recomputed {again} / rewrote files although nothing changed"
+                break
+    finally:
+        shutil.rmtree(d, ignore_errors=True)
+    res = {"status": "ok", "counters": counters, "nontrivial": counters["file_identical_rebuilds"] > 0, "sig": f"file|{shape}|{c_json}|{log}"}
+    if bad:
+        res.update(status="violation", detail=f"[file-backed stores {'json c' if c_json else 'pickle c'}] {bad}", mechanism="c05-oracle", witness={"history": log})
+    return res
+
+
 def run_case(desc):
+    if desc.get("mode") == "file":
+        return run_file(desc)
     res = histcheck.run_case(desc, "C05", ("C05",), "count_checks")
     c = res.get("counters", {})
     res["nontrivial"] = c.get("uptodate_values_checked", 0) > 0 and c.get("outofdate_values_checked", 0) > 0
@@ -41,6 +137,8 @@ def finalize(agg, tier):
     reasons = []
     if c["uptodate_values_checked"] < 200 or c["outofdate_values_checked"] < 200:
         reasons.append("too few up-to-date / out-of-date stored values were checked")
+    if c["file_identical_rebuilds"] < 5:
+        reasons.append("fewer than 5 file-backed rebuilds to byte-identical content")
     if c["silent_rerun_checks"] < 100:
         reasons.append("fewer than 100 silent re-run checks")
     return reasons
